@@ -280,7 +280,7 @@ fn reset_bodies(acc: &mut Acc) {
 
 pub fn run(r: &mut Report) {
     let mut rng = Rng::new(r.seed ^ 0xC13);
-    let per_family = if r.quick() { 10 } else { 100 };
+    let per_family = if r.quick() { 25 } else { 100 };
     let mut items: Vec<(String, Prog, u64)> = vec![];
     for f in [Family::Atomics, Family::Mutex, Family::RwLock, Family::Barrier, Family::Once, Family::ChanUnbounded, Family::ChanBounded, Family::Sem, Family::Mixed, Family::Condvar] {
         for i in 0..per_family {
